@@ -49,6 +49,7 @@ CONSTANTS Ls,        \* set of chain lengths
           B0s,       \* bond size of the initial state p0 (all bonds, before capping at natural size)
           Modes,     \* subset of {"solve", "manual"}
           MaxSweeps,
+          MinExtra,  \* chains have at least bsz + MinExtra sites (1 in the main runs; 0 admits L = bsz: KF-C10-5)
           Ranks,     \* "max": a split keeps min(rank bound, cap); "any": it may also find rank 1
           Mutant,    \* "none" or the name of a seeded protocol defect (model self-tests)
           Emit       \* TRUE: print every complete script as JSON (S->C replay cases)
@@ -84,7 +85,11 @@ BR(b, i) == IF i = L - 1 THEN 1 ELSE b[i + 1]  \* right bond of site i
 \*                  live views of sites j .. j+bsz-1, and only envs[0] a (dummy) _LEFT.
 \* begin = 'right': mirror image; the dummy _RIGHT goes to envs[stop - 1].
 InitSegment(begin, v) ==
-  [begin |-> begin, err |-> FALSE,
+  [begin |-> begin,
+   \* begin = 'right' ends with `self.envs[i] |= self.tnc["_RIGHT"]` where i is the variable of the loop
+   \* `for i in range(start + 1, stop)`: when the segment has a single position (L = bsz) the loop body never
+   \* runs and i is unbound (UnboundLocalError)
+   err  |-> (begin = "right" /\ Stop - 1 < 1),
    pos  |-> IF begin = "left" THEN 0 ELSE Stop - 1,
    envs |-> [j \in 0..(Stop - 1) |->
       IF begin = "left"
@@ -149,7 +154,7 @@ Align(kinds) ==
 (* ------------------------------- actions ------------------------------- *)
 Init ==
   /\ L \in Ls /\ bsz \in Bszs /\ mode \in Modes /\ b0 \in B0s
-  /\ L >= bsz + 1
+  /\ L >= bsz + MinExtra
   /\ phase = "idle" /\ nsw = 0 /\ prev = "0" /\ dir = "0" /\ canon = FALSE /\ cap = 0 /\ capmax = 0
   /\ todo = <<>> /\ done = <<>>
   /\ ver = [s \in Sites |-> 0] /\ sver = 0
